@@ -165,10 +165,19 @@ pub(crate) fn add_str_find<W, R, T>(
                     Some(i) => i,
                 },
             };
+            if start_ind > string.len() {
+                return xerr(ManagedXError::new("index out of bounds", rt)?);
+            }
             let haystack = string.substr(start_ind, None);
+            // the match position is a byte offset into the haystack: convert it to a character index
             let found_idx = haystack
                 .find(needle.as_str())
-                .map(|i| ManagedXValue::new(XValue::Int((i + start_ind).into()), rt.clone()))
+                .map(|i| {
+                    ManagedXValue::new(
+                        XValue::Int((haystack[..i].chars().count() + start_ind).into()),
+                        rt.clone(),
+                    )
+                })
                 .transpose()?;
             Ok(manage_native!(XOptional { value: found_idx }, rt))
         }),
@@ -204,7 +213,12 @@ pub(crate) fn add_str_rfind<W, R, T>(
             let haystack = string.substr(0, end_ind);
             let found_idx = haystack
                 .rfind(needle.as_str())
-                .map(|i| ManagedXValue::new(XValue::Int(i.into()), rt.clone()))
+                .map(|i| {
+                    ManagedXValue::new(
+                        XValue::Int(haystack[..i].chars().count().into()),
+                        rt.clone(),
+                    )
+                })
                 .transpose()?;
             Ok(manage_native!(XOptional { value: found_idx }, rt))
         }),
